@@ -535,4 +535,25 @@ p("c17-p-order-reverse-builtin", "C17", ROFI,
   "        if reverse:\n            new_order.reverse()\n        return new_order\n\n    def order_random",
   "        if reverse:\n            new_order = new_order[::-1]\n        return new_order\n\n    def order_random")
 
+# ----------------------------------------------------------------------------- C18
+FCF = "pyformlang/fcfg/fcfg.py"
+FSF = "pyformlang/fcfg/feature_structure.py"
+b("c18-unify-no-copy-right", "C18", FCF,
+  "                copy_right = next_state.feature_stucture.copy()", "                copy_right = next_state.feature_stucture",
+  "unify-on-fresh-copies")
+b("c18-unify-no-copy-left", "C18", FCF,
+  "                copy_left = state.feature_stucture.copy()", "                copy_left = state.feature_stucture",
+  "unify-on-fresh-copies")
+b("c18-unify-raises-valueerror", "C18", FSF,
+  "            else:\n                raise FeatureStructuresNotCompatibleException()", "            else:\n                raise ValueError()",
+  "unify-raises")
+b("c18-copy-no-memo", "C18", FSF,
+  "        if self in already_copied:\n            return already_copied[self]\n", "", "copy-preserves-sharing")
+b("c18-subsumes-no-deref", "C18", FSF,
+  "        current_dereferenced = self.get_dereferenced()\n        other_dereferenced = other.get_dereferenced()\n        if current_dereferenced.value != other_dereferenced.value:",
+  "        current_dereferenced = self\n        other_dereferenced = other.get_dereferenced()\n        if current_dereferenced.value != other_dereferenced.value:",
+  "reads-through-dereferenced-nodes")
+b("c18-unify-no-recursion", "C18", FSF,
+  "                current_dereferenced.content[feature].unify(other_dereferenced.content[feature])\n", "", "unify-recurses-and-creates")
+
 VARIANTS = V
